@@ -453,11 +453,30 @@ class Runaway(Exception):
     """the real loop asked for more transitions than any roll-out within the cap can take"""
 
 
+class DrawLog:
+    """the initial distribution, recording the outcome of every draw made from it"""
+
+    def __init__(self, real, log):
+        self._real, self._log = real, log
+
+    def sample(self, **kw):
+        x = self._real.sample(**kw)
+        self._log.extend(x if kw.get("k", 1) != 1 else [x])
+        return x
+
+    def __getattr__(self, name):
+        return getattr(self._real, name)
+
+
 class Guard:
     """the environment with a budget of transition samples (a roll-out that ignores its cap must not hang the check)"""
 
-    def __init__(self, env, budget):
-        self._e, self._left = env, budget
+    def __init__(self, env, budget, draws=None):
+        self._e, self._left, self._draws = env, budget, draws
+
+    def initial_state_dist(self):
+        d = self._e.initial_state_dist()
+        return d if self._draws is None else DrawLog(d, self._draws)
 
     def next_state_dist(self, s, a):
         self._left -= 1
@@ -593,6 +612,17 @@ def run_roll(prob, job, script=None):
         rewards = list(res.reward)
         out = dict(rewards=rewards, returns=[float(x) for x in Policy.calc_returns(rewards, env.discount_rate)],
                    n=len(res), extras=container_extras(res))
+        # aliasing history: the caller edits the lists the accessors handed out (drops the closing entry, reverses,
+        # clears); the trajectory the container reports afterwards must still be the roll-out
+        try:
+            for i, col in enumerate(("reward", "state", "action", "next_state")):
+                x = getattr(res, col)
+                if isinstance(x, list):
+                    (x.pop if (i + job["seed"]) % 3 == 0 and x else x.reverse if (i + job["seed"]) % 3 == 1 else x.clear)()
+            traces.append(dict(head, view="accessors-after-edit", ev=mdp_events(prob, res, "accessors")))
+            out["returns_after_edit"] = [float(x) for x in Policy.calc_returns(res.reward, env.discount_rate)]
+        except Exception as e:                                  # noqa: BLE001
+            out["edit_error"] = f"{type(e).__name__}: {e}"[:200]
     else:
         head["ag0"] = prob.proj_ag(kw["initial_agentstate"]) if ag0 else prob.proj_ag(prob.policy.initial_agentstate())
         traces.append(dict(head, view="steps", ev=pomdp_events(prob, res)))
@@ -680,6 +710,7 @@ def table_to_dict(prob, table, two=False):
 def run_eval(prob, job, tamper=None):
     """executes Policy.evaluate_on with a recording subclass wrapped around run_on"""
     log = []
+    draws = []          # outcomes of the draws evaluate_on (or its roll-outs) made from the initial distribution
     base = prob.policy
 
     class Rec(Policy):
@@ -696,7 +727,7 @@ def run_eval(prob, job, tamper=None):
     try:
         with warnings.catch_warnings():
             warnings.simplefilter("ignore")
-            ev = Rec().evaluate_on(Guard(prob.env, (n + 2) * (cap + 3)), n_simulations=n, max_steps=cap, rng=rng)
+            ev = Rec().evaluate_on(Guard(prob.env, (n + 2) * (cap + 3), draws), n_simulations=n, max_steps=cap, rng=rng)
     except Runaway:
         return dict(runaway=f"more than {(n + 2) * (cap + 3)} transitions sampled for n_simulations={n}, "
                             f"max_steps={cap}", traces=[])
@@ -725,7 +756,8 @@ def run_eval(prob, job, tamper=None):
         out["iv"] += 1e-3
     # rewards in the eval trace must be integers for the exact averages; otherwise the roll-out trace is rejected anyway
     usable = all(r != BAD for ro in rolls for r in ro["rs"]) and all(x > 0 for ro in rolls for x in ro["ss"])
-    etrace = dict(kind="eval", iid=job["iid"], cap=cap, n=n, rolls=rolls) if usable else None
+    etrace = dict(kind="eval", iid=job["iid"], cap=cap, n=n, rolls=rolls,
+                  draws=[prob.sidx(x) for x in draws]) if usable else None
     return dict(traces=traces, etrace=etrace, out=out)
 
 
@@ -1028,13 +1060,14 @@ class Pipeline:
         job = self.jobs[ji]
         m = self.insts[tr["iid"] - 1]
         site = "Policy.evaluate_on" if role == "eval-rollout" else site_of(m, "roll")
-        if role == "accessors":
+        if role in ("accessors", "accessors-after-edit"):
             site = "SimulationResult.accessors"
         ok = v["phase"] == "done" and not v["fails"]
         if not ok:
             clause = v["fails"][0]["c"] if v["fails"] else "trace-not-accepted"
             pos = v["fails"][0]["pos"] if v["fails"] else v["l"]
-            ctx.violation(f"C14:{site}:{clause}:{shape_of(m, job)}",
+            shape = shape_of(m, job) + ("+after-the-caller-edited-a-returned-list" if role == "accessors-after-edit" else "")
+            ctx.violation(f"C14:{site}:{clause}:{shape}",
                           f"{site}: roll-out is not a valid trajectory: {clause} at record {pos} "
                           f"(cap={tr['cap']}, start={tr['start']}, events={tr['ev'][:8]})"[:700], self.case_of(ji))
             return False
@@ -1061,6 +1094,16 @@ class Pipeline:
                               f"calc_returns({out['rewards']}, {m['GN']}/{m['GD']}) = {out['returns']}, "
                               f"backward recursion gives {[str(x) for x in exact]}", self.case_of(ji))
                 return False
+            if "returns_after_edit" in out and not (len(out["returns_after_edit"]) == len(exact) and all(
+                    close(x, e, scale) for x, e in zip(out["returns_after_edit"], exact))):
+                ctx.violation("C14:SimulationResult.accessors:returns-of-the-reported-rewards-differ-from-backward-"
+                              "recursion:after-the-caller-edited-a-returned-list",
+                              f"after editing the lists returned by the accessors, calc_returns(res.reward) = "
+                              f"{out['returns_after_edit']}, the roll-out's rewards give {[str(x) for x in exact]}",
+                              self.case_of(ji))
+                return False
+            if out.get("edit_error"):
+                self.flag("SimulationResult-accessors-raise-after-edit", ji, detail=out["edit_error"])
             for x in out.get("extras", []):
                 self.flag(f"SimulationResult-{x}", ji)
         # pipeline A: the scripted replay must reproduce the TLC behaviour
@@ -1125,6 +1168,15 @@ class Pipeline:
         # --- verdicts
         for nt in out.get("notes", []):
             self.flag(nt, ji)
+        if v["startfault"]:
+            starts = [ro["ss"][0] for ro in tr["rolls"]]
+            ctx.violation(f"C14:{site}:roll-outs-do-not-each-start-at-their-own-draw-from-the-initial-distribution:"
+                          f"{shape_of(m, job)}",
+                          f"{site} (n_simulations={job['n']}): the roll-outs start at states {starts} but only the draws "
+                          f"{tr['draws']} were made from the initial distribution {m['p0']}/{m['ID']}", self.case_of(ji))
+            return
+        if v["ndraws"] == 0 and sum(1 for x in m["p0"] if x > 0) >= 2:
+            self.flag("evaluate_on-start-draws-not-observable-at-the-initial-distribution", ji)
         if len(tr["rolls"]) != job["n"]:
             self.flag("evaluate_on-ran-a-different-number-of-roll-outs", ji,
                       detail=dict(ran=len(tr["rolls"]), n_simulations=job["n"]))
